@@ -49,7 +49,7 @@ Sub subgraph(NifFile& nif, uint32_t root, ContentIds& ids) {
 		b->GetPtrs(ps);
 		std::vector<std::string> pl;
 		for (auto p : ps) {
-			if (p->index == NIF_NPOS) pl.push_back("-");
+			if (p->index == NIF_NPOS) continue; // (emptied pointer entries may be dropped by a clone)
 			else if (local.count(p->index)) pl.push_back("#" + std::to_string(local[p->index]));
 			else if (hdr.GetBlock<NiNode>(p->index) && hdr.GetBlock<NiNode>(p->index) == nif.GetRootNode()) pl.push_back("root");
 			else if (auto n = hdr.GetBlock<NiNode>(p->index)) pl.push_back("n:" + n->name.get());
@@ -90,8 +90,8 @@ int cmdRun(int argc, char** argv) {
 	size_t maxShapes = strtoul(argv[2], nullptr, 10);
 	auto files = sampleFiles();
 	{ Out trunc(outPath); }
-	const char* dests[] = {"same", "fresh", "other", "partial-skeleton", "skeleton-root-node", "model-space-flag"};
-	const size_t ND = 6;
+	const char* dests[] = {"same", "fresh", "other", "partial-skeleton", "skeleton-root-node", "model-space-flag", "empty-bone-slot", "parent-stored-later"};
+	const size_t ND = 8;
 	size_t crashes = runForkedCases(
 		files.size() * ND, outPath, 300,
 		[&](size_t i, std::string& out) {
@@ -140,6 +140,25 @@ int cmdRun(int argc, char** argv) {
 						continue;
 					other.Create(src.GetHeader().GetVersion());
 					dst = &other;
+				}
+				else if (destName == "empty-bone-slot") {
+					// the first bone link of the skin is empty (what an editor leaves behind when a bone node goes); fresh destination
+					NiShape* sh = byName(src, shapeName);
+					if (!sh) continue;
+					auto cont = src.GetHeader().GetBlock(sh->SkinInstanceRef());
+					if (!cont || cont->boneRefs.GetSize() < 2) continue;
+					cont->boneRefs.SetBlockRef(0, NIF_NPOS);
+					other.Create(src.GetHeader().GetVersion());
+					dst = (i / ND) % 2 ? &other : &src;
+				}
+				else if (destName == "parent-stored-later") {
+					// the shape hangs below a node that is stored behind it (an unsorted, edited model); cloned within the model
+					NiShape* sh = byName(src, shapeName);
+					if (!sh) continue;
+					MatTransform t;
+					auto grp = src.AddNode("GroupNode", t);
+					src.SetParentNode(sh, grp);
+					dst = &src;
 				}
 				else if (destName == "model-space-flag") {
 					// Fallout 4 and later: a shader flagged for model-space normals on a shape that carries normals (in the
@@ -201,6 +220,21 @@ int cmdRun(int argc, char** argv) {
 						for (auto& b : cb)
 							if (!dst->FindBlockByName<NiNode>(b)) exist = false;
 						ev.raw("srcBones", jsb.done()).raw("cloneBones", jcb.done()).add("bonesExist", exist);
+						// where the clone hangs: below the source's parent within one model, below the root of another model
+						{
+							auto sp = src.GetParentNode(srcShape);
+							// (the parent by the nodes' own child lists, not by a helper of the library)
+							auto parentOf = [](NifFile& f, NiObject* o) -> std::string {
+								uint32_t id = f.GetBlockID(o);
+								for (auto n : f.GetNodes())
+									for (auto& r : n->childRefs)
+										if (r.index == id) return n->name.get();
+								return "(none)";
+							};
+							(void) sp;
+							std::string want = dst == &src ? parentOf(src, srcShape) : (dst->GetRootNode() ? dst->GetRootNode()->name.get() : std::string("(none)"));
+							ev.add("cloneParent", parentOf(*dst, clone)).add("wantParent", want);
+						}
 						long long srcAfter = dst == &src ? 0 : modelId(src, ids);
 						ev.add("srcBefore", srcBefore).add("srcAfter", srcAfter);
 						// identical geometry through the accessors
